@@ -609,12 +609,33 @@ func c15Anchors(ctx *core.Ctx) {
 		{"schema.go", "func schemaOf(", []string{"cachedSchemas.Load(model)", "NewSchema(model.Name()", "cachedSchemas.LoadOrStore(model, schema)", "schema = actual.(*Schema)"}, nil},
 		{"schema.go", "func (c *cacheMap[K, V]) load(", []string{"oldMap, _ := c.value.Load().(map[K]V)", "newMap := make(map[K]V, len(oldMap)+1)", "maps.Copy(newMap, oldMap)", "newMap[k] = value", "c.value.Store(newMap)"}, map[string]int{"oldMap[k] =": 0}},
 		{"column_buffer_reflect.go", "func writeValueFuncOfGroup(", []string{"structFieldsCache.Load().(map[reflect.Type]map[string][]int)", "cachedFieldsBefore := cachedFields", "cachedFields = make(map[reflect.Type]map[string][]int, len(cachedFieldsBefore)+1)", "maps.Copy(cachedFields, cachedFieldsBefore)", "structFieldsCache.Store(cachedFields)"}, nil},
+		// the row group writer protocol (PqModel.RowGroupProto): where awaitOrdinal / rowGroupOrdinal are written and read
+		{"writer.go", "func newConcurrentRowGroupWriter(", []string{"if w.encryption != nil {", "c.awaitOrdinal = true"}, map[string]int{"awaitOrdinal": 1}},
+		{"writer.go", "func (c *ColumnWriter) Flush()", []string{"if c.columnBuffer == nil || c.awaitOrdinal {", "return nil", "if c.columnBuffer.Len() > 0 {"}, nil},
+		{"writer.go", "func (w *writer) flush()", []string{"w.writeRowGroup(w.currentRowGroup, nil, nil)"}, nil},
+		{"writer.go", "func (w *writer) writeRowGroup(", []string{"numRows := rg.columns[0].totalRowCount()", "if numRows == 0 {", "return 0, nil", "rowGroupIndex := len(w.rowGroups)", "defer func() {", "rg.reset()", "nextOrdinal := int16(len(w.rowGroups))", "c.rowGroupOrdinal = nextOrdinal", "c.awaitOrdinal = rg != w.currentRowGroup", "if rg != w.currentRowGroup {", "c.rowGroupOrdinal = nextOrdinal", "}()", "c.rowGroupOrdinal = int16(rowGroupIndex)", "c.awaitOrdinal = false", "c.Flush()"},
+			map[string]int{"awaitOrdinal": 2}},
+		// the row reader's release paths (PoolProto.rowReaderProg): every path that lets go of the page goes
+		// through clear(), which honours detach; the detached values buffer is never unreferenced
+		{"row_group.go", "func newRowGroupRows(", []string{"case ByteArray, FixedLenByteArray:", "r.columns[i].reader.detach = true"}, nil},
+		{"column_chunk.go", "func (r *columnChunkValueReader) clear()", []string{"if r.page != nil {", "if r.detach {", "releaseAndDetachValues(r.page)", "} else {", "Release(r.page)", "r.page = nil", "r.values = nil"}, nil},
+		{"column_chunk.go", "func (r *columnChunkValueReader) Reset()", []string{"r.clear()"}, map[string]int{"Release(": 0}},
+		{"column_chunk.go", "func (r *columnChunkValueReader) Close()", []string{"r.pages.Close()", "r.clear()"}, map[string]int{"Release(": 0}},
+		{"column_chunk.go", "func (r *columnChunkValueReader) ReadValues(", []string{"r.page = p", "r.values = p.Values()", "r.values.ReadValues(values)", "r.clear()"}, map[string]int{"Release(": 0}},
+		{"column_chunk.go", "func (r *columnChunkValueReader) SeekToRow(", []string{"r.pages.SeekToRow(rowIndex)", "r.clear()"}, map[string]int{"Release(": 0}},
+		{"buffer.go", "func (p *bufferedPage) ReleaseAndDetachValues()", []string{"Release(p.Page)", "bufferUnref(p.offsets)", "bufferUnref(p.definitionLevels)", "bufferUnref(p.repetitionLevels)"}, map[string]int{"bufferUnref(p.values)": 0}},
 		{"writer.go", "func (rg *ConcurrentRowGroupWriter) Commit()", []string{"rg.writer.flush()", "return rg.writer.writeRowGroup(rg, nil, nil)"}, nil},
 		{"writer.go", "func (w *writer) writeRowGroup(", []string{"rowGroupIndex := len(w.rowGroups)", "rg.reset()", "fileOffset := w.writer.offset", "dataPageOffset := w.writer.offset", "c.offsetIndex.PageLocations[j].Offset += dataPageOffset", "io.Copy(&w.writer, c.pageBuffer)"}, nil},
 	}
 	poolNote := func(file string) string {
 		if file == "file.go" || file == "column_buffer_reflect.go" {
 			return " — registry protocol: Props.C15.registry_linearizable needs every map access under the lock; Props.C15.registry_fast_path_conflict proves that an unlocked lookup admits a map read concurrent with a map write"
+		}
+		if file == "column_chunk.go" || file == "row_group.go" || file == "buffer.go" {
+			return " — row reader release paths: Props.C15.rowreader_pool_exclusive needs every path that lets go of a page of a byte-array column to detach its values buffer instead of putting it back; Props.C15.rowreader_close_slip_not_exclusive proves that a put on one of these paths lets another goroutine obtain a buffer the caller's rows still point into"
+		}
+		if file == "writer.go" {
+			return " — row group writer protocol: Props.C15.rowgroups_serial_readable is proved for the mirror with awaitOrdinal restored after Commit; Props.C15.rowgroups_slip_unreadable proves that without it a reused row group writer seals pages with a stale ordinal"
 		}
 		if file == "compress/compress.go" || file == "schema.go" || file == "internal/memory/pool.go" {
 			return " — pool protocol: Props.C15.pool_exclusive needs the put to be the owner's last action on the object; for a put before the last use Props.C15.pool_slip_encode_not_exclusive / pool_slip_reconstruct_not_exclusive prove that two goroutines may touch the same object"
